@@ -170,6 +170,11 @@ def kernel_sums(ctx, rule="R05.5"):
         loops = [n for n in ast.walk(k) if isinstance(n, ast.For) and ast.unparse(n.target) == "i"]
         ok = len(z) == 1 and ast.unparse(z[0].value) == "0.0" and len(loops) == 1 and any(s is z[0] for s in loops[0].body)
         ctx.check(ok, rule, "%s::%s" % (KS, kname), "the inner accumulator is reset for every row i", "reset")
+        # what is handed back, in the order the Python side unpacks it: (estimate, variance)
+        rets = [r for r in ast.walk(k) if isinstance(r, ast.Return) and r.value is not None]
+        want = ["np.asarray(field)", "np.asarray(error)"] if kname.endswith("variance") else ["np.asarray(field)"]
+        got = [ast.unparse(x) for x in (rets[0].value.elts if len(rets) == 1 and isinstance(rets[0].value, ast.Tuple) else ([rets[0].value] if len(rets) == 1 else []))]
+        ctx.check(got == want, rule, "%s::%s" % (KS, kname), "returns %s in the order the caller unpacks (estimate first, then variance)" % got, "return-order")
 
 
 def chunks(ctx, rule="R05.5"):
@@ -270,7 +275,8 @@ def variants(ctx, rule="R05.7"):
         pos = [ast.unparse(a) for a in c.args]
         kw = {k.arg: ast.unparse(k.value) for k in c.keywords}
         ok = pos == ["model", "cond_pos", "cond_val"] and all(k in base_params for k in kw)
-        passed = {k: v for k, v in kw.items() if k not in consts}
+        # a keyword that spells out the base class default is the same call as leaving it out
+        passed = {k: v for k, v in kw.items() if k not in consts and not (k not in params and base_defaults.get(k) == v)}
         ok = ok and all(k == v for k, v in passed.items()) and set(passed) | {"model", "cond_pos", "cond_val"} == set(params) and {k: kw.get(k) for k in consts} == consts
         ctx.check(ok, rule, site, "forwards every own parameter to Krige.__init__ under the same name; fixed settings: %s" % (consts or "none"), "forward")
         d = dict(zip(params[len(params) - len(fn.args.defaults):], [ast.unparse(x) for x in fn.args.defaults]))
@@ -282,6 +288,9 @@ def variants(ctx, rule="R05.7"):
 
 
 def run(ctx):
+    from .C18 import mirror_pipelines
+
+    mirror_pipelines(ctx, rule="R05.13")  # the data vector of the system is the conditioning values taken through the exact inverse of what post_field applies (shared with C06 / C18)
     from .C14 import no_shared_fields
 
     no_shared_fields(ctx, "R05.12", "krige/base.py", "Krige", {"_cond_pos", "_cond_val"}, floor=2)  # matrix is built once, data re-read on every call
@@ -289,6 +298,8 @@ def run(ctx):
 
     # the summation kernels compute the full sums k^T K^-1 y and k^T K^-1 k: loop extents, accumulator resets, zero-initialised outputs, no guards (shared with C15)
     _K.accumulator_reset(ctx, rule="R05.11")
+    _K.accumulator_complete(ctx, rule="R05.11")
+    _K.build_independent(ctx, rule="R05.11")
     _K.full_extent(ctx, rule="R05.11")
     _K.zero_init(ctx, rule="R05.11")
     from . import C15_bounds
@@ -322,7 +333,7 @@ def run(ctx):
 
 
 # ---------------------------------------------------------------------------------------- derived kriging state
-def krige_state(ctx, rule="R05.6"):
+def krige_state(ctx, rule="R05.6", raise_exits=True):
     """_krige_pos and _krige_mat are recomputed from the current conditions AND the current model on every path of the
     documented refresh set_condition() (the model may have been changed in place by the caller beforehand)."""
     from .. import state
@@ -338,7 +349,7 @@ def krige_state(ctx, rule="R05.6"):
     st = state.coherence(
         ctx, rule, ci, edges, entries=entries, rel=KB,
         mutating_calls={"self.model.fit_variogram": "_model", "self.normalizer.fit": "_normalizer"},
-        init_ver={"_model": "changed-before-call"},
+        init_ver={"_model": "changed-before-call"}, raise_exits=raise_exits,
     )
     ctx.floor(rule, "paths through set_condition", st["paths"], 50)
     for f in ("_krige_pos", "_krige_mat", "_cond_pos", "_cond_err", "_cond_ext_drift"):
